@@ -149,8 +149,13 @@ def run_smtp(cell):
     if fault is not None:
         fkind = FAULTS[api.choice('fault_kind', len(FAULTS))]
         if fkind == 'code':
-            d0 = api.choice('code_class', 3)
-            fcode = ['2', '4', '5'][d0] + api.sstr('code12', 2, 0x30, 0x39)
+            d0 = api.choice('code_class', 5)
+            fcode = ['2', '4', '5', '1', '3'][d0] + \
+                api.sstr('code12', 2, 0x30, 0x39)
+            if fault[0] == 'DATA':
+                # (3xx is DATA's own go-ahead class; what a peer means by a
+                # 3xx other than 354 is not modelled)
+                api.assume(d0 != 4)
             if fault[0] in ('EHLO', 'LHLO') and api.choice('is500', 2):
                 fcode = '500'
             over[fault] = ('reply', fcode, [api.sstr('ftext', 1, 0x21, 0x7e)])
@@ -419,10 +424,12 @@ def check_class(err, info, **kw):
     """the error class must follow the class of the reply it carries"""
     from slimta.relay import PermanentRelayError, TransientRelayError
     code = err.reply.code
-    api.prove(Or(code[0:1] == '4', code[0:1] == '5'),
+    # (a 1xx / 3xx reply where a 2xx was due is no acceptance and no
+    # definitive refusal either: it must come back as a transient failure)
+    api.prove(code[0:1] != '2',
               'relay-error-with-non-error-reply', **dict(info, **kw))
     api.prove(Or(And(code[0:1] == '5', isinstance(err, PermanentRelayError)),
-                 And(code[0:1] == '4', isinstance(err, TransientRelayError))),
+                 And(code[0:1] != '5', isinstance(err, TransientRelayError))),
               'error-class-does-not-follow-reply-code',
               got=type(err).__name__, **dict(info, **kw))
 
